@@ -109,6 +109,8 @@ pub struct World {
     pub app: PApp,
     pub model: ChainM,
     pub users: Vec<String>,
+    /// when set, everything observable of every step is appended (C19 transcripts)
+    pub transcript: Option<Vec<String>>,
 }
 
 fn block_tuple(b: &BlockInfo) -> (u64, u64, String) {
@@ -121,7 +123,7 @@ impl World {
         let model = ChainM::new(block_tuple(&app.block_info()));
         let users = (0..3).map(|i| app.api().addr_make(&format!("user{}", i)).to_string()).collect();
         let _ = take_trace();
-        World { app, model, users }
+        World { app, model, users, transcript: None }
     }
 }
 
@@ -426,7 +428,7 @@ impl World {
     }
 
     /// I2: a battery of queries, each issued twice, leaves raw storage byte-identical.
-    pub fn query_battery(&self, rep: &mut Report) -> Vec<Disc> {
+    pub fn query_battery(&self, rep: &mut Report, answers: &mut Vec<String>) -> Vec<Disc> {
         let mut d = vec![];
         let before = rawstate::dump(self.app.storage());
         let mut reqs: Vec<QueryRequest<PQuery>> = vec![];
@@ -458,6 +460,8 @@ impl World {
                     if a != b {
                         d.push(Disc { props: vec!["C10"], sig: "same-query-twice-differs".into(), detail: format!("{:?}: {} then {}", r, a, b) });
                     }
+                    // error texts are not part of a transcript
+                    answers.push(if a.contains("Err(") { "err".to_string() } else { a });
                 }
                 (a, b) => d.push(Disc { props: vec!["C10"], sig: "query-panics".into(), detail: format!("{:?}: {:?} / {:?}", r, a, b) }),
             }
@@ -495,6 +499,9 @@ impl World {
                     (None, Some(c)) => Ok(self.app.store_code_with_creator(Addr::unchecked(c.clone()), code)),
                     (None, None) => Ok(self.app.store_code(code)),
                 });
+                if let Some(t) = self.transcript.as_mut() {
+                    t.push(format!("store_code {:?}", got));
+                }
                 rep.bump(&format!("e1/registry/store_code/{}", match (id, &expected) { (None, _) => "auto", (Some(_), Ok(_)) => "chosen", (Some(_), Err(_)) => "rejected" }));
                 match (got, expected) {
                     (Err(p), _) => discs.push(Disc { props: vec!["C11"], sig: "store-code-panics".into(), detail: p }),
@@ -514,6 +521,9 @@ impl World {
             Top::DuplicateCode { id } => {
                 let expected = if *id != 0 && self.model.codes.contains_key(id) { Some(self.model.next_code_id()) } else { None };
                 let got = catch(|| self.app.duplicate_code(*id).map_err(|e| e.to_string()));
+                if let Some(t) = self.transcript.as_mut() {
+                    t.push(format!("duplicate_code {:?}", got));
+                }
                 rep.bump(&format!("e1/registry/duplicate_code/{}", if expected.is_some() { "valid" } else { "invalid" }));
                 match (got, expected) {
                     (Err(p), _) => discs.push(Disc { props: vec!["C11"], sig: "duplicate-code-panics".into(), detail: p }),
@@ -541,11 +551,18 @@ impl World {
                     discs.push(Disc { props: vec!["C14", "C05"], sig: "block-update-panics".into(), detail: p });
                 }
                 self.model.block = block_tuple(&self.app.block_info());
+                if let Some(t) = self.transcript.as_mut() {
+                    t.push(format!("block {:?}", self.model.block));
+                }
                 rep.bump("e1/block_changes");
                 (discs, None)
             }
             Top::QueryBattery => {
-                discs.extend(self.query_battery(rep));
+                let mut answers = vec![];
+                discs.extend(self.query_battery(rep, &mut answers));
+                if let Some(t) = self.transcript.as_mut() {
+                    t.push(format!("queries {:?}", answers));
+                }
                 discs.extend(self.compare_accessors(rep));
                 (discs, None)
             }
@@ -599,6 +616,15 @@ impl World {
                     _ => unreachable!(),
                 });
                 let real_trace = take_trace();
+                if let Some(t) = self.transcript.as_mut() {
+                    // errors-or-not (texts excluded), every response, and what every contract observed
+                    let shown = match &got {
+                        Ok(Ok(rs)) => format!("ok {:?}", rs.iter().map(|r| (events_str(&r.events), r.data.as_ref().map(|d| hex(d)))).collect::<Vec<_>>()),
+                        Ok(Err(_)) => "err".to_string(),
+                        Err(_) => "panic".to_string(),
+                    };
+                    t.push(format!("{} {} trace={:?}", kind, shown, real_trace));
+                }
                 let got = match got {
                     Ok(g) => g,
                     Err(p) => {
@@ -696,6 +722,14 @@ impl World {
                     rep.bump("e1/footprint/checks");
                     if outside(&before) != outside(&after) {
                         discs.push(Disc { props: vec!["C08"], sig: "transaction-changed-raw-keys-outside-bank-and-wasm".into(), detail: format!("{}: {:?}", short_op(op), rawstate::diff(&outside(&before), &outside(&after))) });
+                    }
+                }
+                // ordering / per-message responses of execute_multi are part of C01
+                if matches!(op, Top::Multi { msgs, .. } if msgs.len() > 1) {
+                    for d in discs.iter_mut() {
+                        if !d.props.contains(&"C01") {
+                            d.props.push("C01");
+                        }
                     }
                 }
                 if got.is_ok() == expected.is_ok() {
